@@ -8,6 +8,7 @@ import (
 	"fmt"
 	"os"
 	"reflect"
+	"runtime/debug"
 	"sort"
 	"strings"
 	"sync"
@@ -134,19 +135,26 @@ type vbCollector struct {
 	sigs  map[string]int
 }
 
-func (c *vbCollector) sink(v vbViol, rp vbReplay) {
+func (c *vbCollector) sink(v vbViol, rp func() vbReplay) {
 	c.mu.Lock()
 	defer c.mu.Unlock()
 	if v.Sig == "harness" || v.Sig == "DIVERGENCE" {
-		c.infra = append(c.infra, v.What)
+		if len(c.infra) < 20 {
+			c.infra = append(c.infra, v.What)
+		}
 		return
 	}
 	c.sigs[v.Sig]++
-	c.rep.Violation(v.Sig, v.What, rp)
+	if c.sigs[v.Sig] == 1 { // a signature is printed (and its replay written) once
+		c.rep.Violation(v.Sig, v.What, rp())
+	} else {
+		c.rep.Violation(v.Sig, v.What, nil)
+	}
 }
 
 func TestVerifC10(t *testing.T) {
 	logging.SetAllLoggers(logging.LevelFatal)
+	debug.SetMemoryLimit(8 << 30) // soft: keeps the collector ahead of the address-space cap of bin/check
 	rep := vx.NewReport("C10", "model_checking")
 	rep.Rule = "bounded-exhaustive inputs on the real code: every square of the listed layouts (verifx/sq) stored behind the real Blockstore x every sample / row / " +
 		"(row, probe namespace) / ODS-range identifier pending through the real Fetch over a model of the Bitswap client (c' = sender-chosen cid.Prefix.Sum(bytes), i.e. the " +
@@ -182,7 +190,7 @@ func TestVerifC10(t *testing.T) {
 		run := func() (*vbStats, []string) {
 			st := vbNewStats()
 			var got []string
-			vbRunItem(vbItem{K: 60000, Layout: l, Others: sq.MustParse("w2:A4"), Mode: "enum", OnlyID: -1}, st, func(v vbViol, _ vbReplay) {
+			vbRunItem(vbItem{K: 60000, Layout: l, Others: sq.MustParse("w2:A4"), Mode: "enum", OnlyID: -1}, st, func(v vbViol, _ func() vbReplay) {
 				got = append(got, v.Sig+" "+v.What)
 			}, time.Now().Add(time.Hour))
 			sort.Strings(got)
@@ -222,7 +230,7 @@ func TestVerifC10(t *testing.T) {
 				defer func() { <-sem }()
 				w, err := vbConcWorld(cfg)
 				if err != nil {
-					col.sink(vbViol{"harness", err.Error(), -1}, vbReplay{})
+					col.sink(vbViol{"harness", err.Error(), -1}, func() vbReplay { return vbReplay{} })
 					return
 				}
 				st := vx.BFS(vx.BFSOpts{
@@ -236,7 +244,7 @@ func TestVerifC10(t *testing.T) {
 				}, func() vx.Sys { return vbNewConcSys(cfg, w) }, func(hist []string, err error) {
 					sig, what := vbConcSig(err)
 					c := cfg
-					col.sink(vbViol{sig, fmt.Sprintf("%s [cfg %s, history %v]", what, cfg.Name, hist), -1}, vbReplay{Mode: "conc", Conc: &c, History: hist})
+					col.sink(vbViol{sig, fmt.Sprintf("%s [cfg %s, history %v]", what, cfg.Name, hist), -1}, func() vbReplay { return vbReplay{Mode: "conc", Conc: &c, History: hist} })
 				})
 				results[i] = concRes{cfg, st}
 			}(i, cfg)
@@ -245,6 +253,7 @@ func TestVerifC10(t *testing.T) {
 	}
 	var concStates, concTrans, concReplays int64
 	concRuns := []map[string]any{}
+	concSamples := 0
 	for _, r := range results {
 		if r.st.Capped != "" && r.st.Capped != "stopped on violation" {
 			exhaustive = false
@@ -256,7 +265,8 @@ func TestVerifC10(t *testing.T) {
 			"depth_bound": r.cfg.Depth, "depth_completed": r.st.DepthDone, "frontier_emptied": r.st.Complete, "capped": r.st.Capped,
 			"violating_transitions": r.st.Violations, "states_per_depth": r.st.PerDepth})
 		for _, h := range r.st.SampleHist {
-			if len(h) >= 4 {
+			if len(h) >= 4 && concSamples < 3 {
+				concSamples++
 				rep.AddSample(map[string]any{"kind": "concurrent-fetch history", "cfg": r.cfg.String(), "history": h})
 				break
 			}
@@ -274,7 +284,7 @@ func TestVerifC10(t *testing.T) {
 		sweepN++
 		for _, v := range vbCheckCID(c) {
 			cc := c
-			col.sink(v, vbReplay{Mode: "cid", CID: &cc})
+			col.sink(v, func() vbReplay { return vbReplay{Mode: "cid", CID: &cc} })
 		}
 	})
 	rep.Set("cid_sweep_identifiers", sweepN)
